@@ -26,6 +26,7 @@ func init() {
 			{ID: "C07.R8", Floor: 1, Doc: "net.Buffers.WriteTo consumes its receiver: it runs on a private copy, the per-request accounting reads the untouched original", Run: c07r8},
 			{ID: "C07.R9", Floor: 1, Doc: "frames handed to the writer are complete: the header length equals the bytes that follow it (=C18.R7)", Run: finishLength},
 			{ID: "C07.R10", Floor: 1, Doc: "exec hands the request's own context to the writer, so a request cancelled while it waits for the write slot never writes", Run: c07r10},
+			{ID: "C07.R11", Floor: 1, Doc: "the writers run their socket write synchronously: no goroutine started inside the write path reaches a socket write", Run: c07r11},
 		},
 	})
 }
